@@ -41,6 +41,21 @@ var (
 		"<?xml >", "<?XmL >", "<![if]>", "<![iF ]>", "<%xml %>", "<!--[if]-->", "<?import>", "<!ENTITY>", "<?xml x", "<![if x"}
 )
 
+// numeric references with leading zeros (no limit on the digit count): each letter position of each scheme
+func init() {
+	for _, sc := range []string{"javascript:x", "vbscript:x", "data:x", "view-source:x"} {
+		for i := 0; i < 3; i++ {
+			for _, z := range []int{5, 8, 9, 12, 20, 60} {
+				zeros := strings.Repeat("0", z)
+				xssSchemes = append(xssSchemes,
+					fmt.Sprintf("%s&#%s%d;%s", sc[:i], zeros, sc[i], sc[i+1:]),
+					fmt.Sprintf("%s&#x%s%x;%s", sc[:i], zeros, sc[i], sc[i+1:]),
+					fmt.Sprintf("%s&#X%s%X;%s", sc[:i], zeros, sc[i], sc[i+1:]))
+			}
+		}
+	}
+}
+
 var (
 	xssOnce sync.Once
 	xssAll  []xssVec
